@@ -167,6 +167,18 @@ class VTuple(V):
         return f"VTuple{self.items}"
 
 
+class VTable(VTuple):
+    """A constant table with a proved functional description: T[i] == fn(i) for
+    every index (the description is itself an obligation of the pack, checked
+    on every run); symbolic lookups use fn instead of a 256-way If-tree."""
+    kind = "tuple"
+    __slots__ = ("fn", "name")
+
+    def __init__(self, items, fn, name=""):
+        super().__init__(items)
+        self.fn, self.name = fn, name
+
+
 class VBytes(V):
     """Immutable bytes of concrete length; items are VInt in [0,256)."""
     kind = "bytes"
